@@ -134,6 +134,78 @@ def h_listing(l0: int, c0: int, l1: int, c1: int, l2: int, c2: int, e0: int, e1:
     return verdict(ok)
 
 
+# ---- S2: the real visitor on REAL parse trees (every grammar placement), token positions rewritten symbolically --------
+REAL_TEMPLATE = """macro m($a) {
+    in_m(Position<'mm', 1, 2.5>, $a);
+}
+def 0 {
+    a(Position<'p0', 3, 4>, 5, Position<"p1", -3.5, 0x10>);
+    if (BranchExecuteSub(Position<'p2', 0.5, 1>) || $A == 1) {
+        b<actor 2>(Position<'p3', 7, 8.50>);
+    } elseif not (Check(Position<'p4', 1, 1>)) {
+        ~m(Position<'p5', 2.0, 2>);
+    } else {
+        z();
+    }
+    while (Cond(Position<'p6', 9, 9>)) { w(); }
+    for ($I = 0; F(Position<'p7', 1.5, 1.5>); $I += 1;) { x(); }
+    switch (Sw(Position<'p8', 4, 4>)) {
+        case 1:
+            with (actor 3) { c(Position<
+                'p9',
+                5,
+                -6.5
+            >); }
+        default:
+            d(Position<'p10', 0, 0>); forever { g(Position<'p11', .5, 12>); break_loop; }
+    }
+}
+coro c { e(Position<'p12', -1, -1.5>); }
+def 2 for actor X { f(Position<'p13', 1, 2>); }
+"""
+
+
+N_SLICES = 10
+
+
+def h_real_tree(k: int, dl: int, dc: int) -> bool:
+    """
+    pre: 0 <= k and dl >= 0 and dc >= 0
+    post: _
+    """
+    from harness import hC01
+    from spec.es_sem import pos_arg
+
+    global LAST_DETAIL
+    tree, _parser = hC01.parse(REAL_TEMPLATE)
+    toks = hC01.tokens_of(tree)
+    ntok = len(toks)
+    # case split: slice c of N_SLICES covers k in [c*w, (c+1)*w)
+    w = (ntok - 1 + N_SLICES - 1) // N_SLICES
+    base = (_c % N_SLICES) * w
+    if k >= w or base + k >= ntok - 1:
+        return True
+    kk = base
+    for i in range(w):
+        if k == i:
+            kk = base + i
+    hC01.relayout(toks, kk, dl, dc)
+    got = PositionMarkVisitor().visit(tree)
+    starts = [i for i, t in enumerate(toks) if t.text == "Position"]
+    ok = len(got) == len(starts) == 15
+    if ok:
+        for g, i in zip(got, starts):
+            a, b = toks[i], toks[i + 7]
+            x, y = pos_arg(toks[i + 4].text), pos_arg(toks[i + 6].text)
+            ok = ok and b.text == ">" and g.line_number == a.line - 1 and g.column_number == a.column
+            ok = ok and g.end_line_number == b.line - 1 and g.end_column_number == b.column
+            ok = ok and g.name == toks[i + 2].text[1:-1]
+            ok = ok and (g.x_relative, g.x_offset, g.y_relative, g.y_offset) == (x[0], x[1], y[0], y[1])
+    if NATIVE and not ok:
+        LAST_DETAIL = {"listed": [(g.name, g.line_number, g.column_number) for g in got], "literals": len(starts)}
+    return verdict(ok)
+
+
 OBLIGATIONS = [
     {"id": "C18.S1", "module": __name__, "func": "h_listing",
      "what": "the real PositionMarkVisitor on stand-in trees: one entry per position_marker node in tree order, start = "
@@ -148,4 +220,30 @@ OBLIGATIONS = [
                  "explorerscript.common_syntax.parse_position_marker_arg"],
      "stubs": ["parse tree replaced by duck-typed stand-ins (accept/getChild/getChildCount/start/stop/token accessors); "
                "validated against the real parser by the enumerated part"]},
+    {"id": "C18.S2", "module": __name__, "func": "h_real_tree",
+     "what": "the real PositionMarkVisitor on the REAL parse tree of a source with 15 Position literals in every grammar "
+             "placement (macro body, several per argument list, if / elseif / while / for condition operations, inline "
+             "context op, macro-call argument, switch header operation, with-block, literal spread over five lines, "
+             "default body, loop body, coroutine, for-actor routine): exactly one entry per literal in source order, "
+             "start on the word Position, end on the closing '>', name and tile/half-tile values as the spelling says - "
+             "for every re-layout",
+     "cases": list(range(N_SLICES)), "timeout": {"quick": 280, "thorough": 900},
+     "bounds": "one template; token positions rewritten as if dl line breaks and dc blanks were inserted before token k, "
+               "k over every token, dl and dc unbounded non-negative integers; number spellings concrete (n, -n.5, n.50, "
+               "n.0, .5, 0x10)",
+     "encodes": ["explorerscript.ssb_converting.compiler.compiler_visitor.position_mark_visitor.PositionMarkVisitor",
+                 "explorerscript.common_syntax.parse_position_marker_arg"],
+     "stubs": ["lexing and parsing of the template run untraced (real ANTLR); token positions rewritten by the harness"]},
+    {"id": "C18.S3", "module": "harness.hC04", "func": "h_posmark",
+     "what": "the printed form of a mark (what an editor splices into the listed span) reads back as the same mark "
+             "(shared harness with C04.S6a)",
+     "cases": __import__("harness.hC04", fromlist=["posmark_cases"]).posmark_cases([0, 1]),
+     "timeout": {"quick": 240, "thorough": 1200},
+     "bounds": "offsets in {0,2}^2 (case split); either |name|<=2 symbolic with fixed tile coordinates, or name fixed "
+               "with tile coordinates in [-4,4]^2; names with quotes/backslashes/line breaks and offset 4 are the known "
+               "findings recorded under C04 and excluded here",
+     "encodes": ["explorerscript.ssb_converting.ssb_data_types.SsbOpParamPositionMarker.__str__",
+                 "explorerscript.ssb_converting.ssb_data_types.SsbOpParamPositionMarker.x_final",
+                 "explorerscript.common_syntax.parse_position_marker_arg"],
+     "stubs": ["Position_marker_argContext replaced by a stand-in classifying the text with spec.tokens"]},
 ]
